@@ -50,7 +50,7 @@ def main():
             "guard": "verif",
             "enable": "go build -tags verif (harness module /verif/harness with replace => /repo)",
             "baseline_off_cmd": "python3 /verif/engine/baseline.py",
-            "source_commits": ["9e3fb9e"],
+            "source_commits": ["9e3fb9e", "2ae4494"],
             "add_only": True,
         },
         "engines": [{"name": "coq-proof+correspondence", "path": "/verif/check",
